@@ -383,6 +383,7 @@ func (dc *directoryCache) Close() error {
 		return nil
 	}
 	dc.closed = true
+	dc.fileCache.Purge() // close the cached file descriptors of the files removed below
 	return os.RemoveAll(dc.directory)
 }
 
